@@ -443,6 +443,11 @@ func units(tier string) []engine.Unit {
 	add("string", func(r *engine.Rec) {
 		run(r, &cfg[string]{name: "Catalog[string]", keys: []string{"b", "a", "", "zz"}, less: func(a, b string) bool { return a < b }, maxSize: 9})
 	})
+	if tier == "thorough" {
+		add("string-5-keys", func(r *engine.Rec) {
+			run(r, &cfg[string]{name: "Catalog[string] five keys", keys: []string{"b", "a", "", "m", "zz"}, less: func(a, b string) bool { return a < b }, maxSize: 9})
+		})
+	}
 	add("int", func(r *engine.Rec) {
 		run(r, &cfg[int]{name: "Catalog[int]", keys: []int{2, -1, 0, 9}, less: func(a, b int) bool { return a < b }, maxSize: 9})
 	})
